@@ -1,6 +1,7 @@
 package hx
 
 import (
+	"sync/atomic"
 	"context"
 	"crypto/sha256"
 	"encoding/hex"
@@ -208,6 +209,37 @@ func (c12) Run(c *Ctx, i int) CaseResult {
 		for _, f := range ReuseCheck(c, c.Rand(i+82000000), ts[i%len(ts)], "L0.cache-twin") {
 			if f.Channel == "L0.cache-twin.cached-plan" || f.Channel == "harness" {
 				res.Fails = append(res.Fails, f)
+			}
+		}
+	}
+	if i%3 == 1 && len(res.Fails) == 0 {
+		// concurrent requests WITHOUT a key for DIFFERENT texts, overlapping inside the planner: each gets the answer
+		// of its own text
+		time.Sleep(4*ttl + 50*time.Millisecond)
+		atomic.StoreInt64(&cached.PlanDelayNanos, int64(3*time.Millisecond))
+		texts := []string{cacheTexts[0], cacheTexts[1], cacheTexts[2], cacheTexts[0], cacheTexts[2], cacheTexts[1]}
+		var wg sync.WaitGroup
+		results := make([]string, len(texts))
+		for k := range texts {
+			wg.Add(1)
+			go func(k int) {
+				defer wg.Done()
+				rc := &gateway.RequestContext{Context: context.Background(), Query: texts[k]}
+				plans, perr := cached.GW.GetPlans(rc)
+				if perr != nil {
+					results[k] = "ERR " + perr.Error()
+					return
+				}
+				d, _ := cached.GW.Execute(rc, plans)
+				results[k] = Canon(d)
+			}(k)
+		}
+		wg.Wait()
+		atomic.StoreInt64(&cached.PlanDelayNanos, 0)
+		for k := range results {
+			if results[k] != twinData[texts[k]] {
+				bad("L0.cache-concurrent", fmt.Sprintf("concurrent key-less request %d for %q got a response that differs from the cache-less gateway's", k, texts[k]), twinData[texts[k]], results[k])
+				break
 			}
 		}
 	}
